@@ -1,4 +1,5 @@
 import MirVerif.Lemmas.CArithFold
+import MirVerif.Lemmas.CArithSpec
 import MirVerif.Lemmas.CArithBf
 import MirVerif.Lemmas.BridgeC07
 /-! # C07 — C programs compiled by c2mir behave as under the reference compiler.
@@ -138,6 +139,28 @@ theorem fold_eq_runtime (o : BinOp) (t : IType) (ht : promote t = t) (a b r' : W
        first
          | exact fold_rt_u32 o _ _ r' h
          | exact h64u o a b r' h)
+
+/-- **Compile-time evaluation = C semantics.**  Whenever C11 defines the value of `a o b` for
+operands of type `t` (`cBin`, over mathematical integers: no signed overflow, no division by zero,
+shift count in range, no left shift of a negative value), c2mir's folder yields the image of
+exactly that value.  (For shifts the count is taken in type `t` here; see `fold_shift_eq_runtime`
+for counts of another promoted type.)  Together with `fold_eq_runtime` this ties the Lean
+evaluator `cEval` (the check's third opinion) to the folding model. -/
+theorem fold_meets_c (o : BinOp) (t : IType) (ht : promote t = t) (a b : W64)
+    (ha : canonical t a) (hb : canonical t b) (r : Int)
+    (h : cBin o t (valOf t a) (valOf t b) = some r) :
+    ∃ z, foldConst o t a b = some z ∧ valOf t z = r := by
+  cases t
+  case int => exact fold_meets_c_int o a b ha hb r h
+  case uint => exact fold_meets_c_uint o a b ha hb r h
+  case long => exact fold_meets_c_s64 .long rfl rfl castValue_long o a b r h
+  case llong => exact fold_meets_c_s64 .llong rfl rfl castValue_llong o a b r h
+  case ulong => exact fold_meets_c_u64 .ulong rfl rfl castValue_ulong o a b r h
+  case ullong => exact fold_meets_c_u64 .ullong rfl rfl castValue_ullong o a b r h
+  all_goals exact absurd ht (by decide)
+
+example : castValue .int (-7) = -7 ∧ cBin .div .int (valOf .int (-7)) (valOf .int 2) = some (-3) ∧
+    cBin .add .int 2147483647 1 = none ∧ cBin .add .uint 4294967295 1 = some 0 := by decide
 
 /-- shifts: the count is converted to its OWN promoted type `rt` by the folder and to `t` by the
 generated code; both see the same count whenever it is in the range C defines (`0 ≤ count < width`) -/
